@@ -161,6 +161,36 @@ def run(chk):
                     oracle_bad.append(dict(info, what=f"result changes under {tname}", expected=np.asarray(want).tolist(),
                                            observed=np.asarray(got).tolist()))
             distinct.add((fam, ename))
+    # order sensitivity: nothing created while tracing may leak into later computations -- run under jit FIRST (on array shapes not
+    # used before in this process), then eagerly, then under a different jit, for every noise model and both solvers
+    from tinygp.solvers import DirectSolver, QuasisepSolver
+    fresh = [("Banded", 7, lambda n: noise.Banded(0.5 * jnp.ones(n), 0.02 * jnp.ones((n, 3)))),
+             ("Banded", 6, lambda n: noise.Banded(0.4 * jnp.ones(n), 0.03 * jnp.ones((n, 1)))),
+             ("Diagonal", 8, lambda n: noise.Diagonal(0.3 * jnp.ones(n)))]
+    for (nname, n_, mk), scls in zip(fresh + fresh, [DirectSolver] * 3 + [QuasisepSolver] * 3):
+        n_ = n_ + (3 if scls is QuasisepSolver else 0)      # a fresh shape for each solver
+        Xf = jnp.asarray(np.linspace(0.0, 4.0, n_))
+        yf = jnp.asarray(rng.normal(size=n_))
+
+        def cm(p, yy, mk=mk, n_=n_, scls=scls, Xf=Xf):
+            return GaussianProcess(qs.Matern32(p), Xf, noise=mk(n_), solver=scls).condition(yy).gp.loc
+        info = dict(noise=nname, n=n_, solver=scls.__name__, entry="condition.loc: jit first, then eager, then another jit")
+        try:
+            a = np.asarray(jax.jit(cm)(jnp.asarray(1.3), yf))
+            b = np.asarray(cm(jnp.asarray(1.3), yf))
+            c = np.asarray(jax.jit(lambda p, yy: 1.0 * cm(p, yy))(jnp.asarray(1.3), yf))
+            d = np.asarray(mk(n_) @ yf)
+            e = np.asarray(GaussianProcess(qs.Exp(jnp.asarray(0.8)), Xf, noise=mk(n_), solver=scls).predict(yf))
+        except Exception as ex:  # noqa: BLE001
+            oracle_bad.append(dict(info, what="a public computation fails after an earlier traced call",
+                                   observed=f"{type(ex).__name__}: {str(ex)[:120]}"))
+            continue
+        n_eval += 2
+        for tname, got in (("eager after jit", b), ("second jit", c)):
+            ok, dv = close(got, a, 1e-9)
+            if not ok:
+                oracle_bad.append(dict(info, what=f"result changes: {tname}", expected=a.tolist(), observed=got.tolist()))
+        distinct.add(("order", nname, scls.__name__))
     # jit of the bound methods themselves and operator overloads with traced scalars
     extra = [("traced scalar + kernel", lambda c: (c + kernels.Matern32(jnp.asarray(1.0)))(x, x)),
              ("kernel * traced scalar", lambda c: (kernels.Matern32(jnp.asarray(1.0)) * c)(x, x)),
